@@ -287,7 +287,11 @@ func genSchema(r *common.Rand, lossy bool) (*sd.Schema, map[string]int) {
 	for i, n := 0, 1+r.Pick(3); i < n; i++ {
 		g.inputs = append(g.inputs, fmt.Sprintf("%sIn%d", pfx, i))
 	}
-	for i, n := 0, 1+r.Pick(3); i < n; i++ {
+	nIfaces := 1 + r.Pick(3)
+	if g.on("iface") && only == "iface" {
+		nIfaces = 2 + r.Pick(3) // room for chains of interfaces implementing interfaces
+	}
+	for i := 0; i < nIfaces; i++ {
 		g.ifaces = append(g.ifaces, fmt.Sprintf("%sIf%d", pfx, i))
 	}
 	for i, n := 0, 1+r.Pick(3); i < n; i++ {
